@@ -43,6 +43,48 @@ pub const ANSI_MALFORMED: &[&str] = &[
 pub const INDENTS: &[&str] = &["", "", "> ", "    ", "\u{4f60}", "-", "//", ">>> ", "* ", "  ", "\u{1b}[1m>\u{1b}[0m ", "\t", "# ", "!!!"];
 pub const PREFIX_INDENTS: &[&str] = &["", "", "> ", "  ", "- ", "* ", "    ", "// ", "# ", ">> ", "+", " * ", "--", "/"];
 
+/// every character for which char::is_whitespace() holds
+pub const UNICODE_WS: &[char] = &[
+    '\t', '\u{b}', '\u{c}', ' ', '\u{85}', '\u{a0}', '\u{1680}', '\u{2000}', '\u{2001}', '\u{2002}', '\u{2003}', '\u{2004}', '\u{2005}', '\u{2006}',
+    '\u{2007}', '\u{2008}', '\u{2009}', '\u{200a}', '\u{2028}', '\u{2029}', '\u{202f}', '\u{205f}', '\u{3000}',
+];
+
+/// A random scalar value from ranges that matter for wrapping (Latin-1 and extensions, Greek / Cyrillic, general
+/// punctuation, CJK, kana, Hangul, emoji, symbols): code that computes on code points or UTF-8 bytes instead of
+/// characters goes wrong only for *some* of them, so the vocabulary must not be a fixed handful.
+pub fn rand_cp(r: &mut Rng) -> char {
+    let ranges: &[(u32, u32)] = &[
+        (0x00A1, 0x024F), (0x00A1, 0x024F), (0x0370, 0x04FF), (0x2010, 0x2027), (0x2030, 0x205E), (0x2190, 0x21FF), (0x2460, 0x24FF), (0x3041, 0x30FF),
+        (0x4E00, 0x9FFF), (0x4E00, 0x9FFF), (0x4E00, 0x9FFF), (0xAC00, 0xD7A3), (0xFF01, 0xFF5E), (0x1F300, 0x1F6FF), (0x1F300, 0x1F6FF), (0x1F900, 0x1F9FF),
+        (0x0300, 0x036F), (0x0021, 0x007E),
+    ];
+    loop {
+        let (lo, hi) = *r.pick(ranges);
+        if let Some(c) = char::from_u32(lo + r.below((hi - lo + 1) as usize) as u32) {
+            if c != '\u{1b}' {
+                return c;
+            }
+        }
+    }
+}
+
+pub fn rand_word(r: &mut Rng, maxlen: usize) -> String {
+    let n = r.range(1, maxlen);
+    (0..n).map(|_| rand_cp(r)).collect()
+}
+
+/// a well-formed OSC or CSI sequence with a random payload
+pub fn rand_seq(r: &mut Rng) -> String {
+    if r.chance(2, 3) {
+        let payload: String = (0..r.below(7)).map(|_| { let c = rand_cp(r); if c == '\u{7}' || c == '\\' { 'x' } else { c } }).collect();
+        format!("\u{1b}]{}{}", payload, if r.chance(1, 2) { "\u{7}" } else { "\u{1b}\\" })
+    } else {
+        // CSI: parameter bytes must not be final bytes (0x40..0x7e)
+        let payload: String = (0..r.below(5)).map(|_| *r.pick(&['0', '1', ';', '3', '?', ' ', '\u{e9}', '\u{4e07}', '\u{107}'])).collect();
+        format!("\u{1b}[{}{}", payload, *r.pick(&['m', 'K', '~', '@', 'H']))
+    }
+}
+
 #[derive(Clone, Copy, PartialEq, Eq)]
 pub enum Ansi {
     None,
@@ -66,8 +108,10 @@ pub fn gen_word(r: &mut Rng, c: &TextCfg) -> String {
         r.pick(ASCII_WORDS).to_string()
     } else if k < 60 {
         r.pick(HYPHEN_WORDS).to_string()
-    } else if k < 80 && c.unicode {
+    } else if k < 72 && c.unicode {
         r.pick(UNI_WORDS).to_string()
+    } else if k < 80 && c.unicode {
+        rand_word(r, 5)
     } else if k < 85 && c.ctrl {
         r.pick(CTRL_WORDS).to_string()
     } else if k < 92 {
@@ -81,7 +125,8 @@ pub fn gen_word(r: &mut Rng, c: &TextCfg) -> String {
         Ansi::None => {}
         Ansi::WellFormed | Ansi::Any => {
             if r.chance(1, 4) {
-                let seq = if c.ansi == Ansi::Any && r.chance(1, 4) { *r.pick(ANSI_MALFORMED) } else { *r.pick(ANSI_WF) };
+                let rs = rand_seq(r);
+                let seq: &str = if c.ansi == Ansi::Any && r.chance(1, 4) { *r.pick(ANSI_MALFORMED) } else if r.chance(1, 4) { &rs } else { *r.pick(ANSI_WF) };
                 let chars: Vec<char> = w.chars().collect();
                 let pos = r.below(chars.len() + 1);
                 let mut s: String = chars[..pos].iter().collect();
